@@ -44,21 +44,21 @@ func (o *Options) skipInit(pkgPath string) bool {
 
 type Harness struct {
 	PreemptCalls string // import-path prefix: calls into these packages are preemption points (data-race windows between visible operations)
-	Name     string
-	Pkg      string
-	Fn       *ssa.Function
-	Stubs    map[string]Value
-	Unwind   int
-	MaxSteps int
-	MaxPaths int
-	Preempt  int
-	Timers   int
-	Delays   int
-	Tier     int
-	Expect   []string // labels of reach witnesses that must be hit
-	Doc      string
-	Solver   string
-	NoNative bool
+	Name         string
+	Pkg          string
+	Fn           *ssa.Function
+	Stubs        map[string]Value
+	Unwind       int
+	MaxSteps     int
+	MaxPaths     int
+	Preempt      int
+	Timers       int
+	Delays       int
+	Tier         int
+	Expect       []string // labels of reach witnesses that must be hit
+	Doc          string
+	Solver       string
+	NoNative     bool
 	VirtualClock bool
 }
 
